@@ -131,6 +131,42 @@ pub fn run(r: &mut Report) {
             }
         }
     }
+    // what an inspection records does not depend on what (or whether) it runs: a record-only inspection (empty command) and
+    // inspections with commands see the same working directory, and their rules decide on it
+    {
+        use in_toto::crypto::{HashAlgorithm, HashValue};
+        use in_toto::models::{LinkMetadataBuilder, TargetDescription, rule::Artifact};
+        for (run_id, run) in [("no-command", vec![]), ("true", vec!["true".to_string()]), ("touch-existing", vec!["touch".to_string(), "x".to_string()])] {
+            for (state, expect) in [("as-recorded", true), ("tampered", false), ("extra-file", false), ("missing", false)] {
+                if state == "missing" && run_id == "touch-existing" { continue; }
+                for (side, with_require) in [("materials", true), ("products", true), ("materials", false), ("products", false)] {
+                    let _g = CWD_LOCK.lock().unwrap();
+                    let owner = key(1); let ka = key(2);
+                    let work = tmpdir(); let links = tmpdir();
+                    let td: TargetDescription = [(HashAlgorithm::Sha256, HashValue::new(ring::digest::digest(&ring::digest::SHA256, b"final").as_ref().to_vec()))].into_iter().collect();
+                    let la = LinkMetadataBuilder::new().name("a".into()).products([(VirtualTargetPath::new("x".into()).unwrap(), td)].into_iter().collect()).build().unwrap();
+                    write_link(links.path(), "a", ka.key_id(), &signed_link(&la, &[&ka]));
+                    match state { "as-recorded" => std::fs::write(work.path().join("x"), b"final").unwrap(), "tampered" => std::fs::write(work.path().join("x"), b"evil!").unwrap(),
+                        "extra-file" => { std::fs::write(work.path().join("x"), b"final").unwrap(); std::fs::write(work.path().join("z"), b"more").unwrap() } _ => {} }
+                    let args: Vec<&str> = run.iter().map(|s| s.as_str()).collect();
+                    if !with_require && state == "missing" { continue; }   // (nothing demands the file then)
+                    let rules = || vec![if with_require { ArtifactRule::Require(VirtualTargetPath::new("x".into()).unwrap()) } else { ArtifactRule::Allow(VirtualTargetPath::new("nothing-of-this-name".into()).unwrap()) },
+                             ArtifactRule::Match { pattern: VirtualTargetPath::new("x".into()).unwrap(), in_src: None, with: Artifact::Products, in_dst: None, from: "a".into() },
+                             ArtifactRule::Disallow(VirtualTargetPath::new("*".into()).unwrap())];
+                    let insp = if side == "materials" { inspection("insp", &args, rules(), allow_all()) } else { inspection("insp", &args, allow_all(), rules()) };
+                    let l = layout(vec![step("a", 1, &[&ka], allow_all(), allow_all())], vec![insp], &[&ka], 30);
+                    let lay = signed_layout(&l, &[&owner]);
+                    let old = std::env::current_dir().unwrap();
+                    std::env::set_current_dir(work.path()).unwrap();
+                    let full = no_panic(|| in_toto_verify(&lay, owner_keys(&[&owner]), links.path().to_str().unwrap(), None));
+                    let res = full.as_ref().map(|v| v.is_ok()).map_err(|e| e.clone());
+                    std::env::set_current_dir(old).unwrap();
+                    r.case("inspection-records-whatever-it-runs", json!({"run": run_id, "working_directory": state, "rules_on": side, "require_rule": with_require}), if expect { "Ok" } else { "Err" },
+                           format!("verdict_ok={:?} {}", res, full.as_ref().ok().and_then(|v| v.as_ref().err().map(|e| e.to_string())).unwrap_or_default()), res == Ok(expect));
+                }
+            }
+        }
+    }
     inspection_order(r);
     crate::c15::surplus_failing_sublayout(r);
     // several inspections: EVERY one of them must have exited with 0, also when two of them share a name, in either order
